@@ -12,7 +12,7 @@ import (
 
 func init() {
 	register("C10", propMeta{
-		Explanation: "E-CONST + E-GUARD + E-PAIR + E-PANIC on common/amp. O-1 size constants: bytesPerChunk = 32, elementSizeLimit = 32 KiB, 1 + chunksPerElement*(bytesPerChunk+1) <= elementSizeLimit, and in decodeToWriter tokenizer.SetMaxBuf(c) with c >= that encoder maximum lies on every path between html.NewTokenizer and the first tokenizer.Next (bounded buffering). O-2 whitespace vocabulary: the case set of isASCIIWhitespace is {09, 0a, 0c, 0d, 20} and every separator the encoder writes after a word is in it. O-3 version, alphabet and single stream agree: the encoder writes the version byte '0' through the element encoder before creating the base64 encoder; armorEncoder.Write feeds the payload only through that one streaming base64 encoder; the decoder accepts exactly '0', returns ErrUnknownVersion otherwise; both sides use base64.StdEncoding. O-4 structural errors are errors: the 'inside a pre element' state becomes true only on its false edge and false only on its true edge, by literal transitions; a nested start tag, a stray end tag and end of input inside an element each lead to a return that never re-enters the loop; text reaches the output only on the active edge. O-5 no hang or leak: the decoder goroutine closes the pipe with the decode error on every path and every error return of NewArmorDecoder closes the read side first. O-6 no termination construct reachable from the encoder and decoder entry points. O-7 the one Read whose count is discarded (the version byte from the io.Pipe) is fed only by writes of scanner tokens. Added after the second seeding round: O-5 also requires that no path leads from the tokenizer's ErrorToken case back to Next() (the error is sticky: the loop would spin); O-8 no function of common/amp returns, writes, appends/copies into, or calls a method on a package-level object (compiled regexps, base64 alphabets and sync primitives excepted). Added after the fourth seeding round: O-1b the element encoder's two counters are only advanced (old value plus something) or restarted at zero behind the comparison with their limit, and every payload write is followed by an advance of the chunk counter.",
+		Explanation: "E-CONST + E-GUARD + E-PAIR + E-PANIC on common/amp. O-1 size constants: bytesPerChunk = 32, elementSizeLimit = 32 KiB, 1 + chunksPerElement*(bytesPerChunk+1) <= elementSizeLimit, and in decodeToWriter tokenizer.SetMaxBuf(c) with c >= that encoder maximum lies on every path between html.NewTokenizer and the first tokenizer.Next (bounded buffering). O-2 whitespace vocabulary: the case set of isASCIIWhitespace is {09, 0a, 0c, 0d, 20} and every separator the encoder writes after a word is in it. O-3 version, alphabet and single stream agree: the encoder writes the version byte '0' through the element encoder before creating the base64 encoder; armorEncoder.Write feeds the payload only through that one streaming base64 encoder; the decoder accepts exactly '0', returns ErrUnknownVersion otherwise; both sides use base64.StdEncoding. O-4 structural errors are errors: the 'inside a pre element' state becomes true only on its false edge and false only on its true edge, by literal transitions; a nested start tag, a stray end tag and end of input inside an element each lead to a return that never re-enters the loop; text reaches the output only on the active edge. O-5 no hang or leak: the decoder goroutine closes the pipe with the decode error on every path and every error return of NewArmorDecoder closes the read side first. O-6 no termination construct reachable from the encoder and decoder entry points. O-7 the one Read whose count is discarded (the version byte from the io.Pipe) is fed only by writes of scanner tokens. Added after the second seeding round: O-5 also requires that no path leads from the tokenizer's ErrorToken case back to Next() (the error is sticky: the loop would spin); O-8 no function of common/amp returns, writes, appends/copies into, or calls a method on a package-level object (compiled regexps, base64 alphabets and sync primitives excepted). Added after the fourth seeding round: O-1b the element encoder's two counters are only advanced (old value plus something) or restarted at zero behind the comparison with their limit, and every payload write is followed by an advance of the chunk counter. Added after the fifth seeding round: decodeToWriter returns success only behind the end-of-input token test; the base64 decoder returned by NewArmorDecoder reads the pipe itself (no limiting reader in between).",
 		NotDecided:  "round-trip equality and re-chunking invariance over actual bytes (value-level), the HTML tokenizer's behaviour (third-party).",
 		Assumptions: []string{"golang.org/x/net/html honours SetMaxBuf", "encoding/base64 streaming encoder/decoder are inverse"},
 	}, runC10)
@@ -46,6 +46,7 @@ func runC10(c *Ctx) {
 		c.check(1+cpe*(bpc+1) <= esl, rule1, "an element's text fits the element size limit", "-", fmt.Sprintf("1 + %d*(%d+1) = %d <= %d", cpe, bpc, 1+cpe*(bpc+1), esl), fmt.Sprintf("1 + %d*(%d+1) = %d > %d: the encoder can produce elements the decoder's buffer limit rejects", cpe, bpc, 1+cpe*(bpc+1), esl))
 	}
 	c.checkEncoderCounters()
+	c.checkDecoderEnds()
 	dec := p.Fn("common/amp", "decodeToWriter")
 	if dec == nil {
 		c.undecided(rule1, "amp.decodeToWriter", "-", "anchor does not resolve")
@@ -225,7 +226,7 @@ func runC10(c *Ctx) {
 			}
 			c.check(closed, rule5, "NewArmorDecoder closes the pipe reader before returning an error", p.instrPos(r), "", "an error return leaves the decoder goroutine parked in a pipe write")
 		}
-		if n < 2 {
+		if n < 1 {
 			c.undecided(rule5, "NewArmorDecoder error returns", p.Pos(nad.Pos()), fmt.Sprintf("%d found", n))
 		}
 	}
@@ -335,11 +336,13 @@ func (c *Ctx) checkArmorVersion() {
 	// default -> ErrUnknownVersion
 	okUnknown := false
 	for _, r := range returnsOf(nd) {
-		if bt := boxedType(r.Results[1]); bt != nil && strings.HasSuffix(typeString(bt), "amp.ErrUnknownVersion") {
-			okUnknown = reachableWithout(nd, r, condEdges(nd, false, func(a Atom) bool {
-				k, ok := constInt(a.Y)
-				return a.Op == token.EQL && ok && k == '0'
-			})) == nil
+		for _, lf := range valueLeaves(r.Results[1], r) {
+			if bt := boxedType(lf.V); bt != nil && strings.HasSuffix(typeString(bt), "amp.ErrUnknownVersion") {
+				okUnknown = reachableWithout(nd, lf.At, condEdges(nd, false, func(a Atom) bool {
+					k, ok := constInt(a.Y)
+					return a.Op == token.EQL && ok && k == '0'
+				})) == nil
+			}
 		}
 	}
 	c.check(okUnknown, rule, "any other version byte yields ErrUnknownVersion", p.Pos(nd.Pos()), "", "an unknown version indicator is not reported as ErrUnknownVersion")
@@ -612,4 +615,61 @@ func escapesOrLoopsBackWithout(from, again *ssa.BasicBlock, pass func(ssa.Instru
 		_, isRet := b.Instrs[len(b.Instrs)-1].(*ssa.Return)
 		return isRet
 	})
+}
+
+// checkDecoderEnds: (a) decodeToWriter reports success only at the end of its
+// input: every return with a nil error lies behind the test "the token is an
+// ErrorToken" (an early success return on some tag skips the end-of-input check
+// for an unterminated element); (b) the base64 decoder returned by
+// NewArmorDecoder reads the pipe itself: a limiting or buffering reader in
+// between truncates long messages silently (a clean EOF at a multiple of four).
+func (c *Ctx) checkDecoderEnds() {
+	p := c.P
+	rule := "O-4 structural errors are errors"
+	dec := p.Fn("common/amp", "decodeToWriter")
+	if dec != nil {
+		isTok := func(v ssa.Value) bool {
+			cc, _, ok := callResult(v)
+			return ok && strings.HasSuffix(calleeName(cc), "html.Tokenizer).Next")
+		}
+		atEnd := condEdges(dec, true, func(a Atom) bool {
+			if a.Op != token.EQL {
+				return false
+			}
+			k, ok := constInt(a.Y)
+			return ok && k == 0 && isTok(a.X)
+		})
+		n := 0
+		for _, r := range returnsOf(dec) {
+			if len(r.Results) != 2 || !retMayBeNil(r, 1) {
+				continue
+			}
+			n++
+			path := successReachableWithout(dec, r, 1, atEnd)
+			c.check(len(atEnd) > 0 && path == nil, rule, "decodeToWriter succeeds only at the end of the input", p.instrPos(r), "behind tt == html.ErrorToken", "decoding can end successfully before the input is exhausted (an early return on some tag): the end-of-input checks (an element still open) are skipped and a truncated document is accepted", p.pathString(path)...)
+		}
+		if n == 0 {
+			c.undecided(rule, "decodeToWriter success return", p.Pos(dec.Pos()), "none found")
+		}
+	}
+	if nd := p.Fn("common/amp", "NewArmorDecoder"); nd != nil {
+		ruleB := "O-3 version, alphabet and single stream agree"
+		n := 0
+		for _, d := range deepCalls(nd, 2, "encoding/base64.NewDecoder") {
+			ci, ok := d.In.(ssa.CallInstruction)
+			if !ok {
+				continue
+			}
+			n++
+			src := ci.Common().Args[1]
+			if mi, isMI := src.(*ssa.MakeInterface); isMI {
+				src = mi.X
+			}
+			cc, idx, okc := callResult(src)
+			c.check(okc && calleeName(cc) == "io.Pipe" && idx == 0, ruleB, "the base64 decoder reads the decoder pipe itself", p.instrPos(ci), "", "a reader is interposed between the pipe and the base64 decoder (a LimitReader, a buffer): text beyond it is dropped without an error and the decoder goroutine is left blocked")
+		}
+		if n == 0 {
+			c.undecided(ruleB, "NewArmorDecoder builds a base64 decoder", p.Pos(nd.Pos()), "no base64.NewDecoder call found")
+		}
+	}
 }
